@@ -314,6 +314,8 @@ def drv_arith(tier, seed):
         if Lj[k] and Li[k] is False and TRI[j][k] and TRI[i][k]:
           a, b, c = seqs[i], seqs[j], seqs[k]
           oc = _order_class(a, b, c)
+          if oc != 'same-kind-keys':
+            oc = 'int-vs-str-keys'
           rec.case(f'order.transitive/{oc}', (a, b, c), False, 'p<q and q<r but not p<r',
                    f'import pyglove as pg; p, q, r = {_kp_src(a)}, {_kp_src(b)}, {_kp_src(c)}; assert not (p < q and q < r) or p < r')
   rec.keys.add(('order.transitive', n ** 3))
@@ -858,6 +860,13 @@ def _src_set(paths):
 
 
 def _agrees(s, model, universe):
+  try:
+    return _agrees_impl(s, model, universe)
+  except Exception as e:  # pylint: disable=broad-except
+    return f'observing the set raised {type(e).__name__}: {e}'
+
+
+def _agrees_impl(s, model, universe):
   """Every observation of s agrees with the python-set model."""
   el = _elems(s)
   if len(el) != len(set(map(_tk, el))):
@@ -879,11 +888,19 @@ def _agrees(s, model, universe):
 def drv_keypathset(tier, seed):
   U = [(), ('a',), ('a', 'b'), ('a', 0), (0,), ('0',), ('a', 'b', 'c'), ('x.y',)]
   UD = [(), ('$',), ('a',), ('a', '$'), ('$', 'a')]
-  hist_len = 4 if tier == 'quick' else 5
+  hist_len = '3 (4 over 4 paths)' if tier == 'quick' else '4 (6 over 4 paths)'
   rec = Recorder('C10', 'KeyPathSet vs python set of key tuples',
                  scope=f'universe of {len(U)} paths (+{len(UD)} with "$" keys): all add/remove histories of length <= {hist_len}, '
                        f'all pairs of subsets for union/intersection/difference, all subsets x roots for rebase/subtree/has_prefix')
-  chk = _Chk(rec)
+  chk0 = _Chk(rec)
+
+  def chk(cid, key, ok, msg='', wit=''):
+    # '$' is a legal non-empty string key; every failure it causes is one defect.
+    if cid.endswith('/dollar-key'):
+      cid = 'kps.any-operation/dollar-key'
+    if cid == 'kps.keypath-plus-set/empty-set':
+      cid = 'kps.rebase/empty-set'     # KeyPath + set is the rebased copy: same defect.
+    return chk0(cid, key, ok, msg, wit)
 
   # ---- histories of add / remove, checked after every step.
   def histories(universe, k, tag):
@@ -905,11 +922,13 @@ def drv_keypathset(tier, seed):
           m2.discard(p)
           got = _out(s2.remove, path)
         h2 = hist + [(op, p)]
-        cls = _ps_class(m2 or {('zz',)}, extra=[p] + [q for _, q in h2]) if m2 or True else ''
+        cls = 'dollar-key' if tag == 'd' else _ps_class(m2 or {('zz',)}, extra=[p] + [q for _, q in h2])
         if not m2 and cls == 'general':
           cls = 'becomes-empty'
         wit = lambda: ('import pyglove as pg\ns = pg.KeyPathSet()\n' + ''.join(f's.{o}({_kp_src(q)})\n' for o, q in h2)
-                       + f'assert sorted(str(p) for p in s) == {sorted(str(KP(list(q))) for q in m2)!r} and bool(s) is {bool(m2)} and s == {_src_set(sorted(m2, key=repr))}')
+                       + f'assert sorted(str(p) for p in s) == {sorted(str(KP(list(q))) for q in m2)!r} and bool(s) is {bool(m2)}\n'
+                       + f'assert [pg.KeyPath(list(q)) in s for q in {list(universe)!r}] == {[q in m2 for q in universe]!r}\n'
+                       + f'assert s == {_src_set(sorted(m2, key=repr))}')
         chk(f'kps.{op}.return-value/{cls}', tuple(h2), got == ('ok', want), lambda: f'{op}({p!r}) -> {got}, want {want}',
             lambda: 'import pyglove as pg\ns = pg.KeyPathSet()\n' + ''.join(f's.{o}({_kp_src(q)})\n' for o, q in h2[:-1]) + f'assert s.{op}({_kp_src(p)}) is {want}')
         bad = _agrees(s2, m2, universe)
@@ -918,8 +937,14 @@ def drv_keypathset(tier, seed):
         go(None, s2, m2, depth + 1, h2)
     go(None, KPS(), set(), 0, [])
 
-  histories(U[:7], hist_len, 'u')
-  histories(UD, min(hist_len, 4), 'd')
+  if tier == 'quick':
+    histories(U[:7], 3, 'u')
+    histories(U[:4], 4, 'u')
+    histories(UD, 3, 'd')
+  else:
+    histories(U[:7], 4, 'u')
+    histories(U[:4], 6, 'u')
+    histories(UD, 4, 'd')
 
   # string and int arguments are path equivalents.
   for p in U + UD + [('a[0]',), (-1,), (10, 'x.y', '0')]:
@@ -995,12 +1020,20 @@ def drv_keypathset(tier, seed):
               chk(f'kps.{nm}.result-independent-of-operands/{cls}', (A, B, vi), badb is None, lambda: f'{form}: b: {badb}',
                   lambda: f'import pyglove as pg\na = {sa}\nb = {sb}\n{form}\na.add("fresh")\n[a.remove(p) for p in list(a)]\nassert b == {sb}')
 
-  binary(U[:7] if tier == 'quick' else U, 1 if tier != 'quick' else 1)
-  binary(UD, 1)
+  binary(U[:6] if tier == 'quick' else U[:7] + [], 1)
+  # sets over paths with '$' keys: construction and observation only (histories above).
+  for A in subsets(UD):
+    try:
+      bad = _agrees(_mk(A), set(A), UD)
+    except Exception as e:  # pylint: disable=broad-except
+      bad = f'building the set raised {type(e).__name__}: {e}'
+    chk('kps.construct/dollar-key', A, bad is None, bad,
+        lambda: 'import pyglove as pg\ns = pg.KeyPathSet()\n' + ''.join(f's.add({_kp_src(q)})\n' for q in A)
+        + f'assert sorted(p.keys for p in s) == {sorted(list(q) for q in A)!r}')
 
   # ---- rebase / KeyPath + set / subtree / has_prefix / copy / clear / from_value / include_intermediate.
   roots = [(), ('r',), ('r', 0), (0,), ('x.y', '0'), ('a',)]
-  for universe in (U, UD):
+  for universe in (U,):
     for A in subsets(universe):
       mA = set(A)
       sa = _src_set(A)
